@@ -371,6 +371,10 @@ pub fn is_brackets_string(expression: &Expression) -> bool {
         ),
         #[cfg(feature = "luau")]
         Expression::TypeAssertion { expression, .. } => is_brackets_string(expression),
+        // The brackets string may also be the first token of a larger expression: `[ [[string]] .. x ]`,
+        // or become it once redundant parentheses are removed: `[ ([[string]]) ]`
+        Expression::BinaryOperator { lhs, .. } => is_brackets_string(lhs),
+        Expression::Parentheses { expression, .. } => is_brackets_string(expression),
         _ => false,
     }
 }
